@@ -288,3 +288,18 @@ Definition api_te_sub_in_range (s : api_te_sub) : Prop :=
   end.
 Definition api_te_in_range (x : list (N * list api_te_sub)) : Prop :=
   Forall (fun t => Forall api_te_sub_in_range (snd t)) x.
+
+(* what the typed listing can carry (outside it attr_to_api lists the raw value): only the flag bits the
+   message has fields for, a type B behaviour structure only under the flag the decoder keys it on, and no
+   raw value of another tunnel type *)
+Definition seg_listable (g : te_seg) : Prop :=
+  match g with
+  | SegA f _ => f mod 16 = 0
+  | SegB f _ e => f mod 16 = 0 /\ (e <> None -> bit_set f 64 = true)
+  end.
+Definition cp_listable (cp : te_cp) : Prop :=
+  wf_opt (fun x => match x with BsMpls f _ => f mod 64 = 0 | BsSrv6 f _ => f mod 64 = 0 end) (cp_bsid cp) /\
+  wf_opt (fun x => match x with (f, _, _) => f mod 32 = 0 end) (cp_bsid6 cp) /\
+  Forall (fun sl => Forall seg_listable (snd sl)) (cp_segs cp).
+Definition te_listable (l : list te_tlv) : Prop :=
+  Forall (fun t => match t with TeSr cp => cp_listable cp | TeRaw _ v => v = [] end) l.
